@@ -1,7 +1,7 @@
 #!/usr/bin/env python3
-"""Normalise lean/Driver/Main.lean after a union merge: collect every
-`  ++ [Drv.X]` line, put `*.mode` entries under `modes` and the others under
-`tables`, each once, keeping first-seen order; drop duplicated headers."""
+"""Normalise lean/Driver/Main.lean after a union merge: collect every `  ++ <expr>`
+line under the (possibly duplicated) `def tables` / `def modes` headers, keep each
+once in first-seen order under the header it was found, drop duplicated headers."""
 import os, re, sys
 sys.path.insert(0, os.path.dirname(os.path.abspath(__file__)))
 from common import LEAN
@@ -10,16 +10,23 @@ s = open(p).read()
 s = re.sub(r"<<<<<<<.*\n|=======\n|>>>>>>>.*\n", "", s)
 start = s.index("/-- Stateless command tables")
 end = s.index("def dispatch")
-ents = []
-for m in re.finditer(r"^\s*\+\+ (\[Drv\.[A-Za-z0-9_.]+\]|Drv\.[A-Za-z0-9_.]+)\s*$", s[start:end], re.M):
-    if m.group(1) not in ents:
-        ents.append(m.group(1))
-ismode = lambda e: e.rstrip("]").endswith((".mode", ".modes"))
-tables = [e for e in ents if not ismode(e)]
-modes = [e for e in ents if ismode(e)]
+sec = None
+ents = {"tables": [], "modes": []}
+for line in s[start:end].split("\n"):
+    if line.startswith("def tables"):
+        sec = "tables"
+    elif line.startswith("def modes"):
+        sec = "modes"
+    m = re.match(r"^\s*\+\+\s+(\S.*?)\s*$", line)
+    if m and sec:
+        e = m.group(1)
+        # an entry that is obviously a mode list found under `tables` (union merge displaced it) goes to modes
+        tgt = "modes" if re.search(r"\.(mode|modes|oracle)\b", e) else ("tables" if re.search(r"[Tt]able\b", e) else sec)
+        if e not in ents["tables"] and e not in ents["modes"]:
+            ents[tgt].append(e)
 new = "/-- Stateless command tables, tried in order. -/\ndef tables : List (String → List String → Option String) := []\n"
-new += "".join("  ++ %s\n" % e for e in tables)
+new += "".join("  ++ %s\n" % e for e in ents["tables"])
 new += "\n/-- Stateful groups, selected by a first line `#mode <name>`. -/\ndef modes : List Mode := []\n"
-new += "".join("  ++ %s\n" % e for e in modes) + "\n"
+new += "".join("  ++ %s\n" % e for e in ents["modes"]) + "\n"
 open(p, "w").write(s[:start] + new + s[end:])
-print("tables:", tables, "\nmodes:", modes)
+print("tables:", ents["tables"], "\nmodes:", ents["modes"])
